@@ -1,0 +1,141 @@
+//go:build verif
+
+// Package vhook holds the verification hooks of wrgl (build tag "verif").
+//
+// A harness linking wrgl sets the function variables below. For the
+// stand-alone binary built with the tag, environment variables give the
+// same control without linking anything:
+//
+//	VERIF_TRACE_FILE=<path>  append one NDJSON line per hook call
+//	VERIF_CRASH_AT=<n>       exit(137) immediately before the n-th store write (1-based)
+//	VERIF_YIELD=<permille>   at Yield/Enter points, sleep briefly with that probability
+//	VERIF_SEED=<int>         seed of the yield decisions
+package vhook
+
+import (
+	"encoding/hex"
+	"encoding/json"
+	"math/rand"
+	"os"
+	"runtime"
+	"strconv"
+	"sync"
+	"sync/atomic"
+	"time"
+)
+
+var (
+	// WriteFn is called before every object-store / ref-store write.
+	WriteFn func(store, op string, key []byte)
+	// EnterFn / LeaveFn bracket a region that must be mutually exclusive.
+	EnterFn func(point string) int64
+	LeaveFn func(point string, tok int64)
+	// EventFn records a named event with key/value pairs.
+	EventFn func(name string, kv ...interface{})
+	// YieldFn is called at scheduling-sensitive points.
+	YieldFn func(point string)
+)
+
+var (
+	seq      int64
+	writes   int64
+	mu       sync.Mutex
+	traceF   *os.File
+	crashAt  int64
+	yieldPm  int
+	rng      *rand.Rand
+	initOnce sync.Once
+)
+
+func setup() {
+	initOnce.Do(func() {
+		if p := os.Getenv("VERIF_TRACE_FILE"); p != "" {
+			traceF, _ = os.OpenFile(p, os.O_APPEND|os.O_CREATE|os.O_WRONLY, 0644)
+		}
+		crashAt, _ = strconv.ParseInt(os.Getenv("VERIF_CRASH_AT"), 10, 64)
+		yieldPm, _ = strconv.Atoi(os.Getenv("VERIF_YIELD"))
+		seed, _ := strconv.ParseInt(os.Getenv("VERIF_SEED"), 10, 64)
+		rng = rand.New(rand.NewSource(seed))
+	})
+}
+
+func emit(m map[string]interface{}) {
+	if traceF == nil {
+		return
+	}
+	mu.Lock()
+	defer mu.Unlock()
+	m["seq"] = atomic.AddInt64(&seq, 1)
+	b, _ := json.Marshal(m)
+	traceF.Write(append(b, '\n'))
+}
+
+func maybeYield() {
+	if yieldPm <= 0 {
+		return
+	}
+	mu.Lock()
+	hit := rng.Intn(1000) < yieldPm
+	mu.Unlock()
+	if hit {
+		runtime.Gosched()
+		time.Sleep(50 * time.Microsecond)
+	}
+}
+
+func Write(store, op string, key []byte) {
+	setup()
+	n := atomic.AddInt64(&writes, 1)
+	if crashAt > 0 && n == crashAt {
+		if traceF != nil {
+			traceF.Sync()
+		}
+		os.Exit(137)
+	}
+	if WriteFn != nil {
+		WriteFn(store, op, key)
+	}
+	if traceF != nil {
+		emit(map[string]interface{}{"op": "write", "store": store, "kind": op, "key": hex.EncodeToString(key), "n": n})
+	}
+}
+
+func Enter(point string) int64 {
+	setup()
+	var tok int64
+	if EnterFn != nil {
+		tok = EnterFn(point)
+	}
+	maybeYield()
+	return tok
+}
+
+func Leave(point string, tok int64) {
+	if LeaveFn != nil {
+		LeaveFn(point, tok)
+	}
+}
+
+func Event(name string, kv ...interface{}) {
+	setup()
+	if EventFn != nil {
+		EventFn(name, kv...)
+	}
+	if traceF != nil {
+		m := map[string]interface{}{"op": name}
+		for i := 0; i+1 < len(kv); i += 2 {
+			if k, ok := kv[i].(string); ok {
+				m[k] = kv[i+1]
+			}
+		}
+		emit(m)
+	}
+}
+
+func Yield(point string) {
+	setup()
+	if YieldFn != nil {
+		YieldFn(point)
+	}
+	maybeYield()
+}
